@@ -172,6 +172,12 @@ Theorem astype_representable : forall d a,
   Forall (fun v => in_range d v = true) (a_data a) -> astype d a = mk_arr d (a_shape a) (a_data a).
 Proof. exact astype_representable_l. Qed.
 Print Assumptions astype_representable.
+Theorem dtype_passed_to_decoder : forall blob (C : codecs blob) fs w sf b dtype key d,
+  read_signal blob C fs w sf (Stream b) dtype key (Some [115;112;104]) = c_sph C b dtype
+  /\ read_signal blob C fs w sf (Stream b) (Some d) key (Some [102;105;108;101]) = c_raw C b d
+  /\ read_signal blob C fs w sf (Stream b) None key (Some [102;105;108;101]) = c_raw C b F64.
+Proof. exact dtype_passed_to_decoder_l. Qed.
+Print Assumptions dtype_passed_to_decoder.
 Theorem choice_error_independent : forall blob (C : codecs blob) fs w sf src dtype key fa e,
   chosen_reader blob w sf src fa = Err e -> read_signal blob C fs w sf src dtype key fa = Err e.
 Proof. exact choice_error_l. Qed.
